@@ -9,7 +9,7 @@ from ..core.callgraph import callgraph
 from ..core.larkfacts import grammar_facts
 from ..core.match import phi_alts, txt
 from ..core.source import AnchorMissing
-from .common import DEC, DECGRAMMAR, accessor_sig, ckey, enclosing, fn, returns, stmt_of, where
+from .common import single_def, DEC, DECGRAMMAR, accessor_sig, ckey, enclosing, fn, returns, stmt_of, where
 
 PROP = "C07"
 FILES = [DEC, DECGRAMMAR]
@@ -121,7 +121,11 @@ def c07_4(ctx, ss):
             ctx.violation("C07.3", k + " :: type", where(ff, ff.node), f"{q}: {errs[0]}", len(tt.find_data_literals) + 1)
             continue
         ctx.holds("C07.3", k + " :: type", where(ff, ff.node), f"{q}: every index / attribute is valid on every child word of its rule", len(tt.find_data_literals) + 1)
-        if sig == want:
+        # `aliases.get(n, n) if aliases else n` and `aliases.get(n, n)` are the same lookup (an empty table returns the default)
+        n_ = "start//particle_def/0:LABEL"
+        al_ = "{start//alias/0:LABEL: start//alias/1:LABEL}"
+        same = sig == want or sig.replace(f"Particle.from_evtgen_name({al_}.get({n_}, {n_}))", f"Particle.from_evtgen_name(({n_} | {al_}.get({n_}, {n_})))") == want
+        if same:
             ctx.holds("C07.4", k, where(ff, ff.node), f"{q} = {sig[:160]}", 2)
         elif unk:
             ctx.undecided("C07.4", k, where(ff, ff.node), f"{q}: flow signature not understood: {unk[:2]} :: {sig[:160]}")
@@ -146,7 +150,16 @@ def c07_5(ctx, ss):
     for q in DICT_COMP:
         ff, flow = fn(ss, DEC, q)
         comps = [n for n in pf.walk_no_nested(ff.node) if isinstance(n, ast.DictComp)]
-        rets = [r for r in returns(ff) if r.value is not None and isinstance(r.value, ast.DictComp)]
+        def _dc(r):
+            """the dict comprehension a return hands out (directly, or through a local bound once to it)"""
+            if isinstance(r.value, ast.DictComp):
+                return r.value
+            if isinstance(r.value, ast.Name):
+                d_ = single_def(flow, r.value)
+                if d_ is not None and d_.kind == "assign" and d_.path == () and isinstance(d_.value, ast.DictComp):
+                    return d_.value
+            return None
+        rets = [r for r in returns(ff) if r.value is not None and _dc(r) is not None]
         k = ckey(ff, None, "overwrite")
         if not rets:
             # loop-with-assignment idiom
@@ -162,7 +175,7 @@ def c07_5(ctx, ss):
                 else:
                     ctx.violation("C07.5", k, where(ff, s), f"{q}: the store is guarded or the statements are not visited in document order: a later declaration may not win")
             continue
-        dc = rets[0].value
+        dc = _dc(rets[0])
         g = dc.generators
         it = flow.expand(g[0].iter) if len(g) == 1 else None
         if len(g) == 1 and not g[0].ifs and _direct_find_data(it):
@@ -202,45 +215,59 @@ def c07_5(ctx, ss):
         else:
             ctx.holds("C07.5", k, where(ff, lp), f"{q}: update / item store in document order (later wins)", 3)
         _one_store_per_statement(ctx, ff, flow, lp, q)
-    # (c) PHOTOS flag: last one, `no` when empty
+    # (c) PHOTOS flag: last one, `no` when empty — decided on the returned alternatives with their (expanded, canonical) conditions,
+    #     so `return A if t else B`, `if t: return A` / `return B` and locals holding the pieces all read the same
     ff, flow = fn(ss, DEC, "get_global_photos_flag")
-    rets = returns(ff)
     k = ckey(ff, None, "last-flag")
-    empties = []
-    lasts = []
-    for r in rets:
-        conds = guards.path_conditions(ff.node, r)
-        ex = flow.expand(r.value)
-        empty_guard = any(kind == "if" and ((isinstance(e, ast.UnaryOp) and isinstance(e.op, ast.Not) and pol) or
-                                            (not isinstance(e, ast.UnaryOp) and not pol and isinstance(e, ast.Name)))
-                          for kind, e, pol in conds)
-        if empty_guard:
-            empties.append((r, ex))
+    alts_r = []
+
+    def split_r(conds, v, node):
+        if isinstance(v, ast.IfExp):
+            split_r(conds + [(flow.expand(a_), p_) for a_, p_ in guards.canon_cond(v.test, True)], v.body, node)
+            split_r(conds + [(flow.expand(a_), p_) for a_, p_ in guards.canon_cond(v.test, False)], v.orelse, node)
         else:
-            lasts.append((r, ex))
-    ok_empty = len(empties) == 1 and txt(empties[0][1]) == "PhotosEnum.no"
+            alts_r.append((conds, flow.expand(v), node))
+    for r in returns(ff):
+        base = []
+        for kind, e, pol in guards.path_conditions(ff.node, r, skip_raise_guards=True):
+            if kind == "if":
+                for a_, p_ in guards.canon_cond(flow.expand(e), pol):
+                    base.append((a_, p_))
+        split_r(base, r.value, r)
+    ALL = ("tuple(parsed_file.find_data('global_photos'))", "list(parsed_file.find_data('global_photos'))")
+    empties, lasts = [], []
+    for conds, v, node in alts_r:
+        cs = [(txt(e), p) for e, p in conds]
+        if any(t in ALL and p is False for t, p in cs):
+            empties.append((cs, v, node))
+        else:
+            lasts.append((cs, v, node))
+    ok_empty = len(empties) == 1 and txt(empties[0][1]) == "PhotosEnum.no" and len(empties[0][0]) == 1
     if ok_empty:
-        ctx.holds("C07.5", k + " :: absent", where(ff, empties[0][0]), "no flag in the file => PhotosEnum.no", 1)
+        ctx.holds("C07.5", k + " :: absent", where(ff, empties[0][2]), "no flag in the file => PhotosEnum.no", 1)
     else:
         ctx.violation("C07.5", k + " :: absent", where(ff, ff.node), "absence of a global PHOTOS flag is not reported as PhotosEnum.no")
-    okl = False
-    for r, ex in lasts:
-        t = txt(ex)
-        if isinstance(ex, ast.IfExp):
-            test = txt(ex.test)
-            # tuple(parsed_file.find_data('global_photos'))[-1].children[0].data == 'yes'
-            if "find_data('global_photos'))[-1].children[0].data == 'yes'" in test and txt(ex.body) == "PhotosEnum.yes" and txt(ex.orelse) == "PhotosEnum.no":
-                okl = True
-            elif "find_data('global_photos'))[-1].children[0].data == 'no'" in test and txt(ex.body) == "PhotosEnum.no" and txt(ex.orelse) == "PhotosEnum.yes":
-                okl = True
-            elif "find_data('global_photos'))[0]" in test:
-                ctx.violation("C07.5", k + " :: last", where(ff, r), "the FIRST of several global PHOTOS flags is reported, not the last")
-                return
-    if okl:
-        ctx.holds("C07.5", k + " :: last", where(ff, lasts[0][0]), "the last global_photos node decides; yes <=> its child is `yes`", 2)
+    seen = {}
+    first = False
+    for cs, v, node in lasts:
+        for t, p in cs:
+            for word in ("yes", "no"):
+                for coll in ALL:
+                    if t == f"{coll}[-1].children[0].data == '{word}'":
+                        seen[(word, p)] = txt(v)
+                    if t.startswith(f"{coll}[0]"):
+                        first = True
+    if first:
+        ctx.violation("C07.5", k + " :: last", where(ff, ff.node), "the FIRST of several global PHOTOS flags is reported, not the last")
     else:
-        ctx.violation("C07.5", k + " :: last", where(ff, ff.node),
-                      f"the reported PHOTOS flag is not `yes iff the LAST global_photos node is yes`: {[txt(x)[:120] for _, x in lasts]}")
+        okl = (seen.get(("yes", True)) == "PhotosEnum.yes" and seen.get(("yes", False)) == "PhotosEnum.no") or \
+              (seen.get(("no", True)) == "PhotosEnum.no" and seen.get(("no", False)) == "PhotosEnum.yes")
+        okl = okl and len(lasts) == 2 and all(len([c for c in cs if c[0] not in ALL and not c[0].startswith("len(")]) == 1 for cs, _, _ in lasts)
+        if okl:
+            ctx.holds("C07.5", k + " :: last", where(ff, lasts[0][2]), "the last global_photos node decides; yes <=> its child is `yes`", 2)
+        else:
+            ctx.violation("C07.5", k + " :: last", where(ff, ff.node),
+                          f"the reported PHOTOS flag is not `yes iff the LAST global_photos node is yes`: {[(cs, txt(v)[:40]) for cs, v, _ in lasts][:2]}")
     # (d) lineshape loops: raise exactly when the key is already present
     ff, flow = fn(ss, DEC, "get_lineshape_settings")
     loops = {}
@@ -479,7 +506,20 @@ def c07_6(ctx, ss):
 
 
 def c07_7(ctx, ss):
-    ff, flow = fn(ss, DEC, "get_particle_property_definitions.get_set_width_or_default")
+    # the width helper is found by its role: the nested function of get_particle_property_definitions that is applied to the
+    # children of a particle_def statement
+    outer, oflow = fn(ss, DEC, "get_particle_property_definitions")
+    mfx = pf.module_facts(ss, DEC)
+    cands = []
+    for c in pf.calls_in(outer.node, nested=False):
+        if isinstance(c.func, ast.Name) and len(c.args) == 1 and txt(oflow.expand(c.args[0])).endswith(".children"):
+            q_ = f"get_particle_property_definitions.{c.func.id}"
+            q_ = q_ if q_ in mfx.funcs else c.func.id
+            if q_ in mfx.funcs and q_ not in cands:
+                cands.append(q_)
+    if len(cands) != 1:
+        raise AnchorMissing(f"get_particle_property_definitions: the helper giving the width of a statement was not found ({cands})")
+    ff, flow = fn(ss, DEC, cands[0])
     rets = returns(ff)
     dflt = []
     for r in rets:
